@@ -4,7 +4,7 @@
    implementation's own observations (coefficients, energies at samples, tokens of the text).
    Variables, vartypes, bounds and constraint labels are compared exactly by the worker. *)
 From Coq Require Import List ZArith NArith QArith Qcanon Bool Arith.
-From Dimod Require Import Base.Util Model.Poly Model.LP.
+From Dimod Require Import Base.Util Model.Poly Model.LP Model.LPTok.
 Import ListNotations.
 Open Scope Qc_scope.
 
@@ -16,7 +16,10 @@ Definition probe := (list (label * Qc) * Qc * list Qc)%type.
 Inductive case :=
 | KTrip (n : nat) (obj0 obj1 : obs) (cns : list (conobs * conobs)) (probes : list probe)
         (writes : list text) (output : text) (labels : list (option text))
-| KRefuse (m : cqm_shape) (raised : bool).
+| KRefuse (m : cqm_shape) (raised : bool)
+(* the words of the text lp.dumps produced, classified into tokens, and what the C++ reader
+   made of that text: objective, constraints (label, lhs, sense, rhs) and variables in its order *)
+| KParse (n : nat) (toks : list token) (obj1 : obs) (cons1 : list (nat * conobs)) (vars1 : list varinfo).
 
 Definition to_constr (k : conobs) : constr := mkConstr (obs_poly (k_lhs k)) (k_sense k) (k_rhs k).
 
@@ -41,6 +44,30 @@ Definition probe_ok (obj0 : obs) (cns : list (conobs * conobs)) (p : probe) : bo
 
 Definition text_eqb (a b : text) : bool := list_eqb N.eqb a b.
 
+Definition con_eqb (n : nat) (a : nat * constr) (b : nat * conobs) : bool :=
+  Nat.eqb (fst a) (fst b)
+  && poly_coeff_eqb n (c_lhs (snd a)) (obs_poly (k_lhs (snd b)))
+  && sense_eqb (c_sense (snd a)) (k_sense (snd b))
+  && Qc_eqb (c_rhs (snd a)) (k_rhs (snd b)).
+
+Definition var_eqb (a b : varinfo) : bool :=
+  Nat.eqb (vi_label a) (vi_label b) && vartype_eqb (vi_type a) (vi_type b)
+  && Qc_eqb (vi_lb a) (vi_lb b) && Qc_eqb (vi_ub a) (vi_ub b).
+
+(* the verified reference parser on the implementation's own text must agree with the reader *)
+Definition parse_ok (n : nat) (toks : list token) (obj1 : obs) (cons1 : list (nat * conobs))
+  (vars1 : list varinfo) : bool :=
+  match parse_tokens toks with
+  | None => false
+  | Some m =>
+      let c := cqm_of_lpmodel (map vi_label vars1) m in
+      poly_coeff_eqb n (q_obj c) (obs_poly obj1)
+      && Nat.eqb (length (q_cons c)) (length cons1)
+      && forallb (fun ab => con_eqb n (fst ab) (snd ab)) (combine (q_cons c) cons1)
+      && list_eqb var_eqb (q_vars c) vars1
+      && forallb (fun v => mem_nat v (map vi_label vars1)) (model_names m)
+  end.
+
 Definition check (c : case) : bool :=
   match c with
   | KTrip n obj0 obj1 cns probes writes output labels =>
@@ -53,4 +80,5 @@ Definition check (c : case) : bool :=
       && list_eqb text_eqb (tokens output) (flat_map tokens writes)
       && forallb validate_label labels
   | KRefuse m raised => Bool.eqb (negb (dump_ok m)) raised
+  | KParse n toks obj1 cons1 vars1 => parse_ok n toks obj1 cons1 vars1
   end.
